@@ -6,6 +6,7 @@ CONSTANTS
   Kinds = {"close", "keep", "ws"}
   SigTwice = FALSE
   Dev = {"DenyWhenSaturated"}
+  Faults = {}
 SPECIFICATION Spec
 INVARIANTS Inv_ServingBefore
 CHECK_DEADLOCK FALSE
